@@ -14,7 +14,9 @@
 (*                           or a list/watch request escalated after its   *)
 (*                           retries with a 5xx / 403 ("escalated")        *)
 (*   notfound(key)           a list/watch request for the pair got a 404   *)
-(*   check(served, watched)  checkpoint at rest: sets of pair keys         *)
+(*   check(served, watched, cscoped)  checkpoint at rest: sets of pair    *)
+(*                           keys; cscoped = the pairs of cluster-scoped  *)
+(*                           kinds                                        *)
 (***************************************************************************)
 EXTENDS Naturals, Sequences, FiniteSets, TLC, Json, IOUtils, TLCExt
 Traces == JsonDeserialize(IOEnv.TRACE_FILE)
@@ -71,6 +73,8 @@ Step ==
                           \* F25: the watcher died of a 404 while its kind was being removed, the kind came back before the
                           \* operator rescanned, and nothing respawns the dead watcher
                           ELSE IF watched \subseteq served /\ (served \ watched) \subseteq nf THEN Bad("F25")
+                          \* F34: the watch of a cluster-scoped kind, spawned with the first served namespace, is kept when the last one goes
+                          ELSE IF served = {} /\ watched \subseteq SetToSeq(E.cscoped) THEN Bad("F34")
                           ELSE Bad("watches_differ_from_served_pairs"))
                   ELSE IF E.settled /\ lost THEN (IF fatal = "line" THEN Bad("F15") ELSE IF fatal = "escalated" THEN Bad("F32")
                                                  ELSE Bad("a_change_never_reached_processing"))
